@@ -644,6 +644,14 @@ func (x *c3Ctx) selectCase() {
 			}
 		}
 	}
+	// RFC 9051 6.3.2: the LIST response of a SELECT carries the canonical name, with OLDNAME =
+	// the name the command used
+	renamed := false
+	if sd.List != nil && g.p(15) {
+		sd.List.Mailbox = "Canonical " + reqMbox
+		sd.List.OldName = reqMbox
+		renamed = true
+	}
 	readOnly := g.p(30)
 	was := c.selected
 	spec := map[string]interface{}{"family": "select", "rev2": x.rev2, "utf8": x.utf8, "request": reqMbox, "read_only": readOnly, "was_selected": was, "data": sd}
@@ -673,7 +681,7 @@ func (x *c3Ctx) selectCase() {
 	want := &c3Select{Flags: c3NormFlags(sd.Flags), PermFlags: c3NormFlags(sd.PermFlags), Num: sd.Num, UIDNext: sd.UIDNext, UIDValidity: sd.UIDValidity}
 	if sd.List != nil {
 		nl, ok := c3NormList(sd.List, nil)
-		inDomain = inDomain && ok && nl.Mailbox == c3NormMailbox(reqMbox)
+		inDomain = inDomain && ok && (nl.Mailbox == c3NormMailbox(reqMbox) || renamed)
 		want.List = nl
 	}
 	h.Eval(fmt.Sprintf("select|%v%v|%v%v|%d%d|%v|%v", x.rev2, x.utf8, readOnly, was, len(sd.Flags), len(sd.PermFlags), sd.List != nil, inDomain))
@@ -692,6 +700,9 @@ func (x *c3Ctx) selectCase() {
 	if inDomain {
 		if cerr != nil {
 			h.Fail("select-error:"+c3ErrClass(cerr), "SELECT failed on data inside the domain: "+cerr.Error(), desc)
+		} else if renamed && obs != nil && obs.List == nil {
+			desc["want"], desc["got"] = want, obs
+			h.Fail("select-list-oldname-dropped", "SELECT "+reqMbox+": the LIST data naming the canonical mailbox (OLDNAME = the requested name) was not delivered to the command", desc)
 		} else if d := c3Diff(want, obs); d != "" {
 			desc["want"], desc["got"] = want, obs
 			h.Fail("select-mismatch:"+d, "delivered SELECT data differs from the supplied data at "+d, desc)
